@@ -615,4 +615,46 @@ theorem removeAt_absent_of_ne (kvs : AMap Node) (path : String) (hv : (Node.cont
   simp only [lookup, if_neg hp] at h
   exact removeAtSegs_absent _ kvs hv h
 
+/-! ### Boolean checkers (for concrete instances) -/
+
+def idxFitsB : Option Node → List Nat → Bool
+  | _, [] => true
+  | some (.cont _), _ :: _ => false
+  | some (.list xs), i :: is => idxFitsB xs[i]? is
+  | _, _ :: _ => true
+
+theorem idxFitsB_sound : ∀ (is : List Nat) (cur : Option Node), idxFitsB cur is = true → IdxFits cur is
+  | [], _, _ => by simp [IdxFits]
+  | i :: is, none, _ => by simp [IdxFits]
+  | i :: is, some (.leaf _), _ => by simp [IdxFits]
+  | i :: is, some (.cont _), h => by simp [idxFitsB] at h
+  | i :: is, some (.list xs), h => by
+    simp only [idxFitsB] at h
+    simp only [IdxFits]
+    exact idxFitsB_sound is _ h
+
+def notListB : Option Node → Bool
+  | some (.list _) => false
+  | _ => true
+
+def fitsB (kvs : AMap Node) : List String → Bool
+  | [] => true
+  | [p] => idxFitsB (AMap.get? kvs (segBase p)) (segIdx p)
+  | p :: rest => idxFitsB (AMap.get? kvs (segBase p)) (segIdx p) && notListB (child kvs p) &&
+      fitsB (kidsOf (child kvs p)) rest
+
+theorem fitsB_sound : ∀ (segs : List String) (kvs : AMap Node), fitsB kvs segs = true → Fits kvs segs
+  | [], _, _ => trivial
+  | [p], kvs, h => by
+    simp only [fitsB] at h
+    simp only [Fits]
+    exact idxFitsB_sound _ _ h
+  | p :: q :: r, kvs, h => by
+    simp only [fitsB, Bool.and_eq_true] at h
+    simp only [Fits]
+    refine ⟨idxFitsB_sound _ _ h.1.1, ?_, fitsB_sound (q :: r) _ h.2⟩
+    intro xs e
+    rw [e] at h
+    simp [notListB] at h
+
 end Ytk
